@@ -19,5 +19,9 @@ for f in theirs.get("fixed", []):
         ours["fixed"].append(f)
 json.dump(ours, open("/verif/known_findings.json", "w"), indent=1)
 subprocess.run(["git", "checkout", "--ours", "vf/build.py"], cwd="/verif")
+# evidence files are rewritten by every run: never keep conflict markers, keep ours and re-run the checks afterwards
+for f in subprocess.run(["git", "diff", "--name-only", "--diff-filter=U"], capture_output=True, text=True, cwd="/verif").stdout.split():
+    if f.startswith("evidence/") or f == "harness/h_scan.c" or f == "AGENT_GUIDE.md":
+        subprocess.run(["git", "checkout", "--ours", f], cwd="/verif")
 subprocess.run(["git", "add", "-A"], cwd="/verif")
 print(subprocess.run(["git", "status", "--short"], capture_output=True, text=True, cwd="/verif").stdout[:1500])
